@@ -117,3 +117,39 @@ Proof.
   apply orb_prop in H3 as [H3|H3]; [left; lia|right].
   apply andb_prop in H3. exact H3.
 Qed.
+
+(* ---------- pool kinds ---------- *)
+(* the kind of pool entry the VM casts the operand to (unchecked pointer cast), per role *)
+Definition pool_role (r : role) : bool :=
+  match r with RVal | RSym | RCall | RCallBC | RCallNT => true | _ => false end.
+
+Definition kind_required (r : role) (k : vkind) : Prop :=
+  match r with
+  | RSym => k = VSym
+  | RCall => k = VCall
+  | RCallBC => k = VCallBC
+  | RCallNT => k = VCallNT
+  | _ => True
+  end.
+
+Lemma idx_ok_kind : forall f r v, idx_ok f (r, v) = true -> pool_role r = true ->
+  exists k, nth_error (f_vals f) (N.to_nat v) = Some k /\ kind_required r k.
+Proof.
+  intros f r v H Hp. unfold idx_ok, vkind_is in H.
+  destruct r; try discriminate Hp;
+    (destruct (nth_error (f_vals f) (N.to_nat v)) as [k|]; [|discriminate H]);
+    exists k; (split; [reflexivity|]); cbn [kind_required]; auto;
+    destruct k; try discriminate H; reflexivity.
+Qed.
+
+(* at every offset reached by any path, every pool operand of the instruction names an existing
+   pool entry of exactly the kind its opcode makes the VM assume *)
+Theorem verify_kinds_sound : forall f, verify f = true -> forall n o, reach f n o ->
+  exists i, instr_at f o = Some i /\
+    forall r v, In (r, v) (i_idx i) -> pool_role r = true ->
+      exists k, nth_error (f_vals f) (N.to_nat v) = Some k /\ kind_required r k.
+Proof.
+  intros f Hv n o Hr. destruct (verify_sound f Hv n o Hr) as (i & Hat & _ & _ & _ & _ & Hix & _).
+  exists i. split; [exact Hat|]. intros r v Hin Hp.
+  rewrite Forall_forall in Hix. specialize (Hix _ Hin). apply idx_ok_kind; auto.
+Qed.
